@@ -32,8 +32,8 @@ TIERS = {
 # ---- design pass: bounded configurations of Cluster.tla (module, SPECIFICATION, constants) ----
 ALL_KINDS = '{"unready", "fail", "restart", "dup", "node"}'
 
-def mc(module, spec, nodes="MC_NodeSeq", fits="MC_InitFits", strat="MC_Strat", env=0, edit=1, ann=1, agecap=1, per_node=3, tmpls="MC_TmplSeq", kinds=ALL_KINDS, fault=0):
-    return dict(module=module, spec=spec, nodes=nodes, fits=fits, strat=strat, env=env, edit=edit, ann=ann, agecap=agecap, per_node=per_node, tmpls=tmpls, kinds=kinds, fault=fault)
+def mc(module, spec, nodes="MC_NodeSeq", fits="MC_InitFits", strat="MC_Strat", env=0, edit=1, ann=1, agecap=1, per_node=3, tmpls="MC_TmplSeq", kinds=ALL_KINDS, fault=0, oldds=False):
+    return dict(module=module, spec=spec, nodes=nodes, fits=fits, strat=strat, env=env, edit=edit, ann=ann, agecap=agecap, per_node=per_node, tmpls=tmpls, kinds=kinds, fault=fault, oldds=oldds)
 
 MC_CONFIGS = {
     # name: (config, expected wall time quick machine)
@@ -51,6 +51,9 @@ MC_CONFIGS = {
     "fine_t": mc("MC_canary", "SpecFine", strat="MC_StratFailFast", env=1, edit=2, ann=1, agecap=2, kinds='{"restart", "fail"}', fault=2),
     "canary_narrow_t": mc("MC_canary", "SpecCanary", env=1, edit=1, ann=0, agecap=2, kinds='{"narrow", "lost"}'),
     "rollout_lost_t": mc("MC_rollout", "Spec", env=1, edit=1, ann=0, kinds='{"lost", "fail", "dup"}'),
+    # migration from a DaemonSet: every node starts with a ready pod of the old DaemonSet (OldDS <- MC_OldDS)
+    "rollout_migr_q": mc("MC_rollout", "Spec", env=0, edit=1, ann=1, oldds=True),
+    "rollout_migr_t": mc("MC_rollout", "Spec", strat="MC_Strat2", env=1, edit=1, ann=0, oldds=True),
     "canary_manual_q": mc("MC_canary", "SpecCanary", strat="MC_StratManual", env=0, edit=1, ann=1, agecap=1),
 }
 
@@ -73,9 +76,10 @@ LIVE_CONFIGS = {
     "live_c07_t": (mc("MC_canary", "LiveSpecCanary", strat="MC_StratFailFast", env=1, edit=1, ann=1, agecap=2, kinds='{"restart", "fail"}'), "L_C07"),
 }
 LIVE_CONFIGS["settings_live_q"] = (MC_CONFIGS["settings_live_q"], "SL_Settle")
+LIVE_CONFIGS["live_migr_q"] = (mc("MC_rollout", "LiveSpec", env=0, edit=1, ann=0, oldds=True), "L_C02")
 LIVE = {
     "C18": {"quick": ["settings_live_q"], "thorough": ["settings_live_q"]},
-    "C02": {"quick": ["live_rollout_q", "live_canary_q"], "thorough": ["live_rollout_t", "live_canary_t"]},
+    "C02": {"quick": ["live_rollout_q", "live_canary_q"], "thorough": ["live_rollout_t", "live_canary_t", "live_migr_q"]},
     "C07": {"quick": ["live_fine_q"], "thorough": ["live_fine_q", "live_c07_t"]},
     "C11": {"quick": ["live_fine_q"], "thorough": ["live_fine_q"]},
 }
@@ -83,7 +87,8 @@ LIVE = {
 # property -> {tier: [(config name, [M_ properties], [invariants])]}
 MC = {
     "C01": {"quick": [("rollout_q", ["M_C01"], ["TypeOK"])], "thorough": [("rollout_t", ["M_C01"], ["TypeOK"]), ("canary_t", ["M_C01"], []), ("rollout_lost_t", ["M_C01", "M_C03"], [])]},
-    "C03": {"quick": [("rollout_q", ["M_C03"], [])], "thorough": [("rollout_t", ["M_C03"], []), ("rollout_mu2_t", ["M_C03"], [])]},
+    "C03": {"quick": [("rollout_q", ["M_C03"], []), ("rollout_migr_q", ["M_C03", "M_C01", "M_C12"], ["TypeOK"])],
+            "thorough": [("rollout_t", ["M_C03"], []), ("rollout_mu2_t", ["M_C03"], []), ("rollout_migr_t", ["M_C03", "M_C01", "M_C12", "M_C14"], ["TypeOK"])]},
     "C04": {"quick": [("canary_q", ["M_C04"], [])], "thorough": [("canary_t", ["M_C04"], []), ("canary_narrow_t", ["M_C04", "M_C01", "M_C03"], [])]},
     "C05": {"quick": [("canary_q", ["M_C05"], [])], "thorough": [("canary_t", ["M_C05"], []), ("canary_manual_q", ["M_C05"], [])]},
     "C06": {"quick": [("canary_q", ["M_C06"], [])], "thorough": [("canary_t", ["M_C06"], [])]},
@@ -129,6 +134,9 @@ FN = {
 SCHED = {p: ["canary"] for p in ("C01", "C02", "C03", "C04", "C05", "C07", "C08", "C09", "C12", "C13", "C14", "C15")}
 SCHED.update({"C18": ["settings"], "C10": ["settings"]})   # behaviours of SettingsSys.tla (settings controller + replica-set sync)
 # behaviours of Multi.tla (two ExtendedDaemonSets sharing the nodes; same name in two namespaces / two names in one namespace)
+# behaviours of Cluster.tla started in the middle of a migration from a DaemonSet (OldDS)
+for _p in ("C03", "C12", "C02", "C01"):
+    SCHED[_p] = SCHED[_p] + ["migration"]
 for _p in ("C12", "C13", "C14", "C01"):
     SCHED[_p] = SCHED[_p] + ["multi"]
 
